@@ -525,6 +525,37 @@ pub fn run(ctx: &Ctx) -> i32 {
         }
     }));
     let s6 = SubReport::new("scriptlets", "A", &format!("each of the nine scriptlet setters × 3 bodies × every interpreter list of ≤ 3 words over {:?} ({} lists: the built-in interpreter marker, its pieces, a marker ending in a multi-byte character, empty words): build + write, no panic", PWORDS, plists.len()), a7);
+    // ---- builders that start from Default::default() instead of new()
+    let mut a9 = Acc::new();
+    for (i, what) in ["build", "with a file", "with a scriptlet and a dependency", "build_and_sign", "with every optional text set to the empty string"].iter().enumerate() {
+        a9.evals += 1;
+        let case = json!({"kind": "default-builder", "then": what});
+        let signer = crate::keys::Key::Ed25519.signer(&ctx.repo);
+        let r = catch(|| {
+            let b = PackageBuilder::default().compression(none);
+            let p = match i {
+                0 => b.build(),
+                1 => b.with_file(&src, FileOptions::new("/f")).and_then(|b| b.build()),
+                2 => b.pre_install_script("true").requires(rpm::Dependency::any("x")).build(),
+                3 => b.build_and_sign(signer),
+                _ => b.description("").vendor("").url("").group("").packager("").release("").build(),
+            };
+            p.map(|p| {
+                let mut o = vec![];
+                let _ = p.write(&mut o);
+                let _ = rpm::Package::parse(&mut &o[..]);
+            })
+        });
+        match r {
+            Err(p) => a9.viol(panic_violation("default-builder", &p, case).rank(i as u64)),
+            Ok(Err(e)) => a9.count(&format!("rejected: {}", err_kind(&e))),
+            Ok(Ok(())) => {
+                a9.nontrivial += 1;
+                a9.count("accepted");
+            }
+        }
+    }
+    let s8 = SubReport::new("default-builder", "A", "PackageBuilder::default() (every required text empty) finished in five ways — built, with a file, with a scriptlet and a dependency, built and signed, with every optional text empty: Ok or Err, no panic, and what is built can be written and parsed without a panic", a9);
     // ---- file modes given as values with public fields: anything can be put into `permissions`
     let mut a6 = Acc::new();
     {
@@ -563,7 +594,7 @@ pub fn run(ctx: &Ctx) -> i32 {
     }
     ctx.finish(
         "exploration",
-        vec![s1, s1u, s1b, s1c, s1d, s1e, s1f, s7, s2, s3, s4, s6, s5],
+        vec![s1, s1u, s1b, s1c, s1d, s1e, s1f, s7, s2, s3, s4, s6, s8, s5],
         &[
             "which in-between destinations (e.g. '/a/.', '/../a') are accepted is not specified; they must only not panic and, if accepted, give a usable package",
             "timestamp arguments of non-integer types (chrono dates before 1970) are outside the statement's 'strings and numbers'",
